@@ -338,3 +338,19 @@ def stale_probe_history(rng):
                                ["rep", rng.randrange(64), "a", "z"], ["dela", rng.randrange(64)]]))
     probes = [rand_probe(rng) for _ in range(rng.choice([2, 3, 4]))]
     return ops + probes + [["commit"]] + probes
+
+
+def blank_above_comment_case(rng):
+    """ignore_blank_lines on; an edit leaves a blank / whitespace-only line directly above an INDENTED COMMENT, where it
+    changes the 'line above is indented deeper' test of the comment exception until the commit drops it again"""
+    k = rng.choice([1, 1, 2, 3])
+    lines = [rng.choice(["interface X", "a", "router bgp 1"])]
+    lines.append(" " * (k + rng.choice([0, 1, 2])) + rng.choice(["b", "deeper", "ip address 1.1.1.1 255.0.0.0"]))
+    pos = len(lines)
+    lines.append(" " * k + rng.choice(["! note", "!", "! c"]))
+    for _ in range(rng.choice([0, 1, 2])):
+        lines.append(" " * rng.choice([k, k + 1, 1]) + rng.choice(["c", "! d", "shutdown"]))
+    blank = rng.choice(["", " ", " " * k, " " * (k + 1), " " * (k + 3)])
+    edit = rng.choice([["ins", pos, blank], ["ins", pos, blank, "obj"], ["sub", pos - 1, r"^.*$", blank], ["oia", pos - 1, blank, "obj"],
+                       ["lib", "^ *!", blank, "obj"], ["rep", pos - 1, lines[pos - 1], blank], ["oib", pos, blank, "obj"]])
+    return lines, [edit]
